@@ -140,6 +140,10 @@ def make_subjects(binfo, scratch, seed, tier):
         trace = [(int(e[2]), int(e[3])) for e in vsim.parse_log(rdb.log)["fs"] if e[0] == "W" and e[1] == "ao"]
         subjects.append({"kind": "ao", "file": "hellodb.ao", "data": ao, "aux": {}, "routes": ["R1", "R2"],
                          "regions": ao_regions(ao), "trace": trace, "prog": "hellodb.as", "source": worlds.HELLO})
+        if "hellodb.fm" in rdb.files:		# FOAM text with `;line` position comments
+            fm = rdb.files["hellodb.fm"]
+            subjects.append({"kind": "fm", "file": "hellodb.fm", "data": fm, "aux": {}, "routes": ["R5"],
+                             "regions": [(0, len(fm), "text")], "trace": [], "prog": "hellodb.as", "source": worlds.HELLO})
     # an archive whose member name needs the long-name table of ar
     rl = write_world(binfo, scratch, "averyveryverylongname.as", LIB_SRC)
     if rl.rc == 0 and "averyveryverylongname.ao" in rl.files:
@@ -224,6 +228,28 @@ def gen_damages(rng, subj, tier):
             lens.add(min(n - 1, lo + 1))
         for _ in range(40):
             lens.add(rng.below(n))
+        if subj["kind"] == "fm":
+            # text: cut inside and right after the tokens a reader has to finish - string
+            # literals, comments, numbers, opening parentheses (a capped, seeded sample of each)
+            quotes = [i for i in range(n) if data[i:i + 1] == b'"']
+            comments = []
+            i = 0
+            while True:
+                i = data.find(b";", i)
+                if i < 0:
+                    break
+                j = data.find(b"\n", i)
+                j = n if j < 0 else j
+                comments += list(range(i, min(j + 1, i + 200)))
+                i = j + 1
+            for q in rng.sample(quotes, min(60, len(quotes))):
+                for dlt in (-1, 0, 1, 2, 5):
+                    lens.add(q + dlt)
+            for c in rng.sample(comments, min(160, len(comments))):
+                lens.add(c)
+            parens = [i for i in range(n) if data[i:i + 1] == b"("]
+            for q in rng.sample(parens, min(30, len(parens))):
+                lens.add(q + 1)
         lens = sorted(L for L in lens if 0 <= L < n)
     for L in lens:
         dm.append(("trunc", L, None))
